@@ -184,6 +184,8 @@ pub struct Ctx {
     pub findings: Findings,
     start: Instant,
     pub strict: bool,
+    /// proptest shrink budget (lower it for checks whose cases take seconds)
+    pub max_shrink_iters: std::sync::atomic::AtomicU32,
 }
 
 #[derive(Default)]
@@ -336,7 +338,7 @@ impl Ctx {
         }
         let seed = std::env::var("VERIF_SEED").ok().and_then(|s| s.trim().parse::<i64>().ok()).map(|x| x as u64).unwrap_or(20_260_924);
         let level = level_of(&property);
-        Ctx { property, tier, seed, level, replay, findings: Findings::load(), start: Instant::now(), strict }
+        Ctx { property, tier, seed, level, replay, findings: Findings::load(), start: Instant::now(), strict, max_shrink_iters: std::sync::atomic::AtomicU32::new(4000) }
     }
 
     pub fn report(&self) -> Report {
@@ -433,7 +435,7 @@ impl Ctx {
                     let cfg = Config {
                         cases: per as u32,
                         failure_persistence: None,
-                        max_shrink_iters: 4000,
+                        max_shrink_iters: self.max_shrink_iters.load(Ordering::Relaxed),
                         max_global_rejects: 1 << 20,
                         ..Config::default()
                     };
